@@ -41,3 +41,17 @@ func TestSnapLibraryValues(t *testing.T) {
 	_ = Bytes(&ri, Options{WithCap: true})
 	_ = Bytes(ls, Options{})
 }
+
+func TestScribble(t *testing.T) {
+	type inner struct {
+		Pub  []byte
+		priv []byte
+		Zone string
+	}
+	in := &inner{Pub: []byte{1, 2}, priv: []byte{3}, Zone: "z"}
+	m := map[string]string{"a": "b"}
+	n := Scribble([]any{in, m, [][]byte{{9}}})
+	if in.Pub[0] == 1 || in.priv[0] != 3 || in.Zone == "z" || m["a"] == "b" || n == 0 {
+		t.Fatalf("scribble: %+v %v %d", in, m, n)
+	}
+}
